@@ -325,7 +325,7 @@ func TestCrash(t *testing.T) {
 	for wl := 0; wl < workloads; wl++ {
 		rng := rand.New(rand.NewSource(seed*99991 + int64(wl)))
 		cfg, keys := persistentConfig(rng)
-		pr := pRun{Seed: seed*7 + int64(wl), Cfg: cfg, Keys: keys, Ops: 6 + rng.Intn(5), MinEpoch: 60 * time.Second, Faults: mode == "live"}
+		pr := pRun{Seed: seed*7 + int64(wl), Cfg: cfg, Keys: keys, Ops: hx.EnvInt("CRASH_OPS_MIN", 6) + rng.Intn(5), MinEpoch: 60 * time.Second, Faults: mode == "live"}
 		// reference run without a crash
 		var ref *pResult
 		synctest.Test(t, func(t *testing.T) {
